@@ -93,6 +93,34 @@ func genRec(cfg Config, emit func(string, bool, []string)) {
 			add("advance 33")
 			add("obs")
 		}
+		if c%25 == 21 && refresh == "" && !gcCase {
+			// a round filled to its limit by new changes in which the set of failed objects changes
+			// (first failure / the only failed object rewritten and succeeding), followed at once by
+			// another round: what WaitUntilReconciled reports while that round runs
+			k := roundSize
+			if k > 3 {
+				k = 1 + r.IntN(3)
+				ops[len(ops)-1] = strings.Replace(ops[len(ops)-1], fmt.Sprintf(" %d %s", roundSize, mode), fmt.Sprintf(" %d %s", k, mode), 1)
+			}
+			add("fail 1 1")
+			var sp []string
+			for j := 1; j <= k+1+r.IntN(2); j++ {
+				sp = append(sp, fmt.Sprintf("p%d:%d", j, r.IntN(100)))
+			}
+			add("multi %s", strings.Join(sp, ","))
+			add("advance 3")
+			add("obs")
+			add("fail 1 0")
+			sp = nil
+			for j := 1; j <= k+1; j++ {
+				sp = append(sp, fmt.Sprintf("p%d:%d", j, r.IntN(100)))
+			}
+			add("multi %s", strings.Join(sp, ","))
+			add("advance 3")
+			add("obs")
+			add("advance %d", maxB+7)
+			add("obs")
+		}
 		nid := 1 + r.IntN(4)
 		clock := 0
 		if refresh != "" {
@@ -303,9 +331,12 @@ type recCall struct {
 	kind    reconciler.StatusKind
 	stale   bool   // the user had already changed / removed / re-created the object when this attempt ran
 	rev     uint64 // the revision argument of the operation (the change being reconciled)
+	round   int    // the reconciler's round the call was made in (rounds are told apart by their snapshot)
 }
 
 type recExec struct {
+	round   int
+	lastTxn statedb.ReadTxn
 	o             *Out
 	db            *statedb.DB
 	table         statedb.RWTable[*recObj]
@@ -378,6 +409,7 @@ type lwSample struct {
 	ncalls int // calls recorded before the sample
 	at     time.Duration
 	lw     uint64
+	round  int
 }
 
 // sampleLW: what WaitUntilReconciled reports right now (called from inside the target's
@@ -393,7 +425,7 @@ func (e *recExec) sampleLW() {
 	_, lw, _ := e.rec.WaitUntilReconciled(ctx, 0)
 	cancel()
 	e.mu.Lock()
-	e.lwSamples = append(e.lwSamples, lwSample{n, e.since(), lw})
+	e.lwSamples = append(e.lwSamples, lwSample{n, e.since(), lw, e.round})
 	e.mu.Unlock()
 }
 
@@ -421,6 +453,17 @@ func (e *recExec) Close() {
 
 func (e *recExec) since() time.Duration { return time.Since(e.start) }
 
+// noteTxn: every round of the reconciler hands its operations one snapshot; a different snapshot
+// is a later round (consecutive rounds run at the same virtual instant)
+func (e *recExec) noteTxn(txn statedb.ReadTxn) {
+	e.mu.Lock()
+	if txn != e.lastTxn {
+		e.round++
+		e.lastTxn = txn
+	}
+	e.mu.Unlock()
+}
+
 // --- Operations / BatchOperations (the simulated target) ---
 
 func (e *recExec) doUpdate(rev statedb.Revision, obj *recObj) error {
@@ -431,7 +474,7 @@ func (e *recExec) doUpdate(rev statedb.Revision, obj *recObj) error {
 	delete(e.injects, obj.ID)
 	st := obj.GetStatus()
 	ref, live := e.ref[obj.ID]
-	c := recCall{op: "U", id: obj.ID, data: obj.Data, ok: !fail, at: e.since(), pending: st.ID, kind: st.Kind, stale: !live || ref.data != obj.Data, rev: uint64(rev)}
+	c := recCall{op: "U", id: obj.ID, data: obj.Data, ok: !fail, at: e.since(), pending: st.ID, kind: st.Kind, stale: !live || ref.data != obj.Data, rev: uint64(rev), round: e.round}
 	e.calls = append(e.calls, c)
 	if !fail {
 		e.target[obj.ID] = recTarget{true, obj.Data}
@@ -462,7 +505,7 @@ func (e *recExec) doDelete(rev statedb.Revision, obj *recObj) error {
 	defer e.mu.Unlock()
 	fail := e.failing[obj.ID]
 	_, live := e.ref[obj.ID]
-	e.calls = append(e.calls, recCall{op: "D", id: obj.ID, data: obj.Data, ok: !fail, at: e.since(), stale: live, rev: uint64(rev)})
+	e.calls = append(e.calls, recCall{op: "D", id: obj.ID, data: obj.Data, ok: !fail, at: e.since(), stale: live, rev: uint64(rev), round: e.round})
 	if fail {
 		return errors.New("fail")
 	}
@@ -473,9 +516,11 @@ func (e *recExec) doDelete(rev statedb.Revision, obj *recObj) error {
 type recOps struct{ e *recExec }
 
 func (o recOps) Update(ctx context.Context, txn statedb.ReadTxn, rev statedb.Revision, obj *recObj) error {
+	o.e.noteTxn(txn)
 	return o.e.doUpdate(rev, obj)
 }
 func (o recOps) Delete(ctx context.Context, txn statedb.ReadTxn, rev statedb.Revision, obj *recObj) error {
+	o.e.noteTxn(txn)
 	return o.e.doDelete(rev, obj)
 }
 func (o recOps) Prune(ctx context.Context, txn statedb.ReadTxn, objs iter.Seq2[*recObj, statedb.Revision]) error {
@@ -498,11 +543,13 @@ func (o recOps) Prune(ctx context.Context, txn statedb.ReadTxn, objs iter.Seq2[*
 	return nil
 }
 func (o recOps) UpdateBatch(ctx context.Context, txn statedb.ReadTxn, batch []reconciler.BatchEntry[*recObj]) {
+	o.e.noteTxn(txn)
 	for i := range batch {
 		batch[i].Result = o.e.doUpdate(batch[i].Revision, batch[i].Object)
 	}
 }
 func (o recOps) DeleteBatch(ctx context.Context, txn statedb.ReadTxn, batch []reconciler.BatchEntry[*recObj]) {
+	o.e.noteTxn(txn)
 	for i := range batch {
 		batch[i].Result = o.e.doDelete(batch[i].Revision, batch[i].Object)
 	}
@@ -965,7 +1012,9 @@ func (e *recExec) settleOracle(o *Out) {
 				switch {
 				case c.op == "change" || c.ok:
 					delete(awaiting, k)
-				case c.at < sm.at && !c.stale:
+				case (c.at < sm.at || c.round < sm.round) && !c.stale:
+					// (an earlier instant, or an earlier round of the same instant: its result was
+					// committed and the progress published before the sampled round began)
 					awaiting[k] = c
 				default:
 					delete(awaiting, k) // failed in the round that is still in progress
